@@ -84,10 +84,13 @@ Proof.
   destruct w as [|wf|n]; [reflexivity| |]; [now rewrite std_weights_ext|now rewrite ins_weights_ext].
 Qed.
 
-Lemma resume_ext : forall rc, resume rc v = resume rc v'.
+Lemma resume_src_ext : forall rc, resume_src rc v = resume_src rc v'.
 Proof.
-  intro rc. unfold resume. rewrite !aexists_ext, !try_load_ext. reflexivity.
+  intro rc. unfold resume_src. rewrite !aexists_ext, !try_load_ext. reflexivity.
 Qed.
+
+Lemma resume_ext : forall rc, resume rc v = resume rc v'.
+Proof. intro rc. unfold resume. now rewrite resume_src_ext. Qed.
 End Ext.
 
 (* ---- soundness of the atomicity checker, for every op list -------------------------------------- *)
@@ -183,6 +186,90 @@ Proof.
 Qed.
 End Pickle.
 
+(* ---- two kills ------------------------------------------------------------------------------------- *)
+(* what the property asks after the second kill, given what the first resume found: a complete
+   checkpoint no older than that one (or, if nothing had ever completed, a fresh start or the new one) *)
+Definition second_outcome (o1 : outcome) (new2 : payload) (o2 : outcome) : Prop :=
+  match o1, o2 with
+  | Loaded pk1 _, Loaded pk _ => pk = pk1 \/ pk = new2
+  | Fresh, Fresh => True
+  | Fresh, Loaded pk _ => pk = new2
+  | _, _ => False
+  end.
+
+Lemma second_ok_spec : forall o1 new2 o2, second_ok o1 new2 o2 = true -> second_outcome o1 new2 o2.
+Proof.
+  intros [| |pk1 ws1] new2 [| |pk ws]; simpl; intro H; try discriminate; try exact I.
+  - now apply payload_eqb_eq in H.
+  - apply orb_prop in H. destruct H as [H|H]; apply payload_eqb_eq in H; [now left|now right].
+Qed.
+
+Section TwoCrash.
+Variable B : Type.
+Variable bytes : payload -> list B.
+Variable decode : list B -> option payload.
+Hypothesis decode_bytes : forall p, decode (bytes p) = Some p.
+Hypothesis decode_prefix : forall p j, j < length (bytes p) -> decode (firstn j (bytes p)) = None.
+Hypothesis decode_nil : decode [] = None.
+
+(* first kill (n1 ops, cut j1) during the checkpoint of a sampler that writes to PKL; a fresh process
+   resumes (outcome o1, unpickled from src) and its sampler checkpoints to [holder rh src]; second kill
+   (n2, j2) during that checkpoint; a third process resumes: o2 *)
+Theorem two_crash_sound : forall rc rh (mk : writer) (s : scen) (new2 : payload),
+  two_crash_ok rc rh mk s new2 = true ->
+  legal (s_init s) (mk PKL (s_new s)) = true ->
+  forall c0 : cstate B,
+    ahnd (s_init s) = None -> chnd c0 = None -> (forall f, classify decode (cfs c0) f = afs (s_init s) f) ->
+  forall n1 j1 o1 src,
+    In (o1, src) (resume_src rc (classify decode (crash_exec bytes (mk PKL (s_new s)) c0 n1 j1))) ->
+  forall n2 j2 o2,
+    In o2 (resume rc (classify decode
+            (crash_exec bytes (mk (holder rh src) new2)
+               {| cfs := crash_exec bytes (mk PKL (s_new s)) c0 n1 j1; chnd := None |} n2 j2))) ->
+    second_outcome o1 new2 o2.
+Proof.
+  intros rc rh mk s new2 Hok Hl1 c0 Ha Hc Hv n1 j1 o1 src H1 n2 j2 o2 H2.
+  pose proof (sim_closed B bytes decode c0 (s_init s) Ha Hc Hv) as Hsim.
+  destruct (abs_sound B bytes decode decode_bytes decode_prefix decode_nil _ c0 (s_init s) Hsim Hl1 n1 j1)
+    as (v1 & Hin1 & Hv1).
+  rewrite (resume_src_ext _ _ Hv1 rc) in H1.
+  unfold two_crash_ok in Hok. rewrite forallb_forall in Hok. specialize (Hok v1 Hin1).
+  rewrite forallb_forall in Hok. specialize (Hok (o1, src) H1). simpl in Hok.
+  apply andb_prop in Hok. destruct Hok as [Hl2 Hall].
+  set (c1 := {| cfs := crash_exec bytes (mk PKL (s_new s)) c0 n1 j1; chnd := None |}) in *.
+  assert (Hsim1 : sim B bytes decode c1 (closed v1)).
+  { apply sim_closed; [reflexivity|reflexivity|exact Hv1]. }
+  destruct (abs_sound B bytes decode decode_bytes decode_prefix decode_nil _ c1 (closed v1) Hsim1 Hl2 n2 j2)
+    as (v2 & Hin2 & Hv2).
+  rewrite (resume_ext _ _ Hv2 rc) in H2.
+  rewrite forallb_forall in Hall. specialize (Hall v2 Hin2).
+  rewrite forallb_forall in Hall. exact (second_ok_spec _ _ _ (Hall o2 H2)).
+Qed.
+End TwoCrash.
+
+(* concrete two-kill history for a sampler that follows the loaded file *)
+Lemma follow_loaded_witness :
+  let ops1 := safe_file_dump_ops true PKL (PkP 2 (StdW WT)) in
+  let ops2 := safe_file_dump_ops true (holder FollowLoaded (Old PKL)) (PkP 3 (StdW WT)) in
+  exists i k,
+    i < length (crash_states clean2 ops1)
+    /\ In (Loaded (PkP 1 (StdW WT)) [WtP 5], Old PKL) (resume_src rc_today (view_at clean2 ops1 i))
+    /\ k < length (crash_states (closed (view_at clean2 ops1 i)) ops2)
+    /\ In Fresh (resume rc_today (view_at (closed (view_at clean2 ops1 i)) ops2 k)).
+Proof.
+  intros ops1 ops2. exists 1, 1. split; [vm_compute; lia|]. split; [vm_compute; auto|].
+  split; [vm_compute; lia|]. vm_compute. auto.
+Qed.
+
+Lemma today_hand_two : c11_two_ok rc_today KeepPickled (safe_file_dump_ops true) (safe_file_dump_ops false) = true.
+Proof. vm_compute. reflexivity. Qed.
+
+(* a sampler that keeps checkpointing to the file it was loaded from (the .old one after a fallback)
+   rotates the only good checkpoint out of the reader's sight: refuted *)
+Lemma follow_loaded_refuted :
+  c11_two_ok rc_today FollowLoaded (safe_file_dump_ops true) (safe_file_dump_ops false) = false.
+Proof. vm_compute. reflexivity. Qed.
+
 (* ---- today's hand-copied writers pass (the regenerated ones are checked on every run) ------------ *)
 Lemma today_hand : c11_ok rc_today (safe_file_dump_ops true) (safe_file_dump_ops false)
                           save_weights_ops save_weights_ops = true.
@@ -207,7 +294,7 @@ Proof. exists 2. split; [vm_compute; lia|vm_compute; auto]. Qed.
    UnpicklingError, which the fallback in FlowProposal.resume does not catch *)
 Lemma short_prefix_refuted :
   exists i, i < length (crash_states clean2 (save_weights_ops WT (WtP 6)))
-         /\ In Fail (resume rc_today_short (view_at clean2 (save_weights_ops WT (WtP 6)) i)).
+         /\ In Fail (resume rc_fallback_only_short (view_at clean2 (save_weights_ops WT (WtP 6)) i)).
 Proof. exists 2. split; [vm_compute; lia|vm_compute; auto]. Qed.
 
 (* residual defect of today's code: kill inside torch.save (resume works, through the fallback),
@@ -218,9 +305,9 @@ Lemma second_kill_refuted :
   let ops2 := save_weights_ops WT (WtP 7) in
   exists i k,
     i < length (crash_states clean2 ops1)
-    /\ (forall o, In o (resume rc_today (view_at clean2 ops1 i)) -> o = Loaded (PkP 1 (StdW WT)) [WtP 5])
+    /\ (forall o, In o (resume rc_fallback_only (view_at clean2 ops1 i)) -> o = Loaded (PkP 1 (StdW WT)) [WtP 5])
     /\ k < length (crash_states (closed (view_at clean2 ops1 i)) ops2)
-    /\ In Fail (resume rc_today (view_at (closed (view_at clean2 ops1 i)) ops2 k)).
+    /\ In Fail (resume rc_fallback_only (view_at (closed (view_at clean2 ops1 i)) ops2 k)).
 Proof.
   intros ops1 ops2. exists 2, 2. split; [vm_compute; lia|]. split; [vm_compute; intuition congruence|].
   split; [vm_compute; lia|]. vm_compute. auto.
@@ -228,5 +315,12 @@ Qed.
 
 (* the weights writer is NOT atomic from the state the fallback leaves behind *)
 Lemma after_torn_not_safe :
-  weights_writer_ok rc_today save_weights_ops WT std_weights_scens_after_torn = false.
+  weights_writer_ok rc_fallback_only save_weights_ops WT std_weights_scens_after_torn = false.
+Proof. vm_compute. reflexivity. Qed.
+
+(* ... and repaired: today's reader removes the damaged model.pt once the fallback has loaded, so from
+   EVERY directory a kill inside save_weights can leave, the next save_weights is crash-atomic again *)
+Lemma second_kill_repaired :
+  forallb (fun v1 => atomic_safe rc_today (closed (after_resume rc_today v1)) (save_weights_ops WT (WtP 7)))
+          (crash_states clean2 (save_weights_ops WT (WtP 6))) = true.
 Proof. vm_compute. reflexivity. Qed.
